@@ -62,3 +62,17 @@ impl CIdent for OtherApp {
 fn client(a: &Impl<App>, b: &Impl<OtherApp>) -> i32 {
     a.c_ident(1, 2) + b.c_ident(1, 2)
 }
+
+/// concrete deps together with the function's own type / const / lifetime generics
+#[entrait(CTypeGeneric)]
+fn c_type_generic<T: Clone + Default>(deps: &App, key: &str, t: T) -> T {
+    t
+}
+#[entrait(CConstGeneric)]
+fn c_const_generic<'a, const N: usize>(deps: &'a App, keys: [&str; N]) -> [&'a str; N] {
+    [&deps.name; N]
+}
+#[entrait(CWrapperGeneric)]
+fn c_wrapper_generic<T: Clone>(deps: &Wrapper<u8>, t: T, t2: T) -> T {
+    t2
+}
